@@ -9,7 +9,7 @@ TARGETS = ['pytezos.operation.forge.forge_operation_group', 'pytezos.operation.f
            'pytezos.rpc.kind.operation_tags', 'pytezos.michelson.forge.forge_address/forge_public_key/forge_nat/forge_base58/forge_array/forge_script/forge_micheline']
 STUBS = ['base58 package boundary (see C10): every address/key/hash field carries a fully symbolic payload', 'str(int)/int(str), hex/fromhex -> opaque wrappers']
 BOUNDS = {'quick': 'every listed content kind; one numeric field per obligation ranges over |v| < 2^118 ("2^64 and beyond"), the others over < 2^7 (single Zarith group); all hash/key payloads symbolic; entrypoints: '
-                   'absent, default, the 10 protocol-reserved names, named (1 and 31 bytes); Micheline parameters with a symbolic int leaf; messages/proofs <= 2 symbolic bytes; groups of 1..3 contents',
+                   'absent, default, the 10 protocol-reserved names, named (1 and 31 bytes), fully symbolic names over [A-Za-z0-9_] of every length a reserved name has (+ 1, 9); Micheline parameters with a symbolic int leaf; rollup message lists with symbolic messages of 0..2 bytes (incl. empty messages in every position); groups of 1..3 contents',
           'thorough': 'all numeric fields < 2^118 in turn, more source/destination kind combinations'}
 OUTSIDE = ['consensus / voting / evidence kinds', 'Micheline inside parameters beyond one leaf (C05)', 'rejection of entrypoint names longer than 31 bytes (the property quantifies over well-formed fields)']
 ASSUMPTIONS = ['reference = ref/opbin.py (protocol operation encoding: tags 4, 17, 107-111, 158, 201, 206; entrypoint tags 0..9, 255 + length-prefixed name), validated on the recorded '
@@ -111,8 +111,11 @@ def build(P, ex, f):
         ep = P.get('entrypoint')
         if ep is not None:
             val = _micheline_param(ex, P.get('param', 'int'))
-            c['parameters'] = {'entrypoint': ep, 'value': val}
-            r['parameters'] = {'entrypoint': ep, 'value': val}
+            epc = epr = ep
+            if isinstance(ep, (list, tuple)) and ep[0] == 'sym':
+                epc, epr = _sym_entrypoint(ex, ep[1])
+            c['parameters'] = {'entrypoint': epc, 'value': val}
+            r['parameters'] = {'entrypoint': epr, 'value': val}
     elif kind == 'origination':
         c['balance'], r['balance'] = bvx.DecStr(N['balance']), N['balance']
         if P.get('delegate'):
@@ -137,7 +140,8 @@ def build(P, ex, f):
         c.update(ticket_contents=val, ticket_ty=ty, ticket_ticketer=tt, ticket_amount=bvx.DecStr(N['ticket_amount']), destination=dt, entrypoint=P.get('entrypoint', 'default'))
         r.update(ticket_contents=val, ticket_ty=ty, ticket_ticketer=tr, ticket_amount=N['ticket_amount'], destination=dr, entrypoint=P.get('entrypoint', 'default'))
     elif kind == 'smart_rollup_add_messages':
-        msgs = [ex.bytes(f'msg{i}', P.get('n', 2) - i) for i in range(P.get('nmsg', 2))]
+        lens = P['lens'] if 'lens' in P else [P.get('n', 2) - i for i in range(P.get('nmsg', 2))]
+        msgs = [ex.bytes(f'msg{i}', n) for i, n in enumerate(lens)]
         c['message'] = [bvx.SymHex(m) for m in msgs]
         r['message'] = [list(m.items) for m in msgs]
     elif kind == 'smart_rollup_execute_outbox_message':
@@ -149,6 +153,65 @@ def build(P, ex, f):
     else:
         raise KeyError(kind)
     return c, r
+
+
+class _RawName:
+    """Reference-side entrypoint name that is known not to be a reserved one (symbolic characters)."""
+
+    def __init__(self, items):
+        self.items = items
+
+    def encode(self):
+        return list(self.items)
+
+    def __len__(self):
+        return len(self.items)
+
+
+def _sym_entrypoint(ex, L):
+    """-> (name for pytezos, name for the reference): L symbolic characters of [A-Za-z0-9_]"""
+    from ref import opbin
+    from vf import bvx
+
+    raw = ex.bytes('entrypoint', L)
+    if not hasattr(ex, 'solver') and not hasattr(ex, '_ex'):
+        text = bytes(raw.items).decode()       # concrete replay
+        return text, text
+    for it in raw.items:
+        v = bvx.SymInt(bvx.bv(it))
+        ex.assume(((v >= 97) & (v <= 122)) | ((v >= 65) & (v <= 90)) | ((v >= 48) & (v <= 57)) | (v == 95))
+    name = bvx.SymStr(raw)
+    for rname in opbin.ENTRYPOINT_TAGS:
+        if len(rname) == L and bool(name == rname):
+            return name, rname
+    return name, _RawName(list(raw.items))
+
+
+class SymDict(dict):
+    """dict with concrete str keys that can be probed with a symbolic text (equality decided by the solver, one fork per same-length key)."""
+
+    def _find(self, k):
+        from vf import bvx
+
+        if isinstance(k, bvx.SymStr):
+            for key in dict.keys(self):
+                if len(key) == len(k) and bool(k == key):
+                    return key
+            return None
+        return k if dict.__contains__(self, k) else None
+
+    def __contains__(self, k):
+        return self._find(k) is not None
+
+    def __getitem__(self, k):
+        f = self._find(k)
+        if f is None:
+            raise KeyError(k)
+        return dict.__getitem__(self, f)
+
+    def get(self, k, default=None):
+        f = self._find(k)
+        return default if f is None else dict.__getitem__(self, f)
 
 
 _OPF = None
@@ -164,6 +227,7 @@ def op_forge_module():
         M = bvx.load_module('/repo/src/pytezos/operation/forge.py', 'bvx_operation_forge')
         for n in ('forge_address', 'forge_array', 'forge_base58', 'forge_bool', 'forge_int16', 'forge_int32', 'forge_micheline', 'forge_nat', 'forge_public_key', 'forge_script'):
             setattr(M, n, getattr(F, n))
+        M.reserved_entrypoints = SymDict(M.reserved_entrypoints)
         _OPF = M
     return _OPF
 
@@ -433,6 +497,11 @@ def obligations(tier):
     add('transfer_ticket/to-implicit', [{'kind': 'transfer_ticket', 'destination': 'tz1', 'entrypoint': 'receive'}])
     add('smart_rollup_add_messages', [{'kind': 'smart_rollup_add_messages', 'nmsg': 2, 'n': 2}])
     add('smart_rollup_add_messages/empty', [{'kind': 'smart_rollup_add_messages', 'nmsg': 0}])
+    for lens in ([0], [0, 1], [1, 0], [0, 0, 2]):
+        add(f'smart_rollup_add_messages/lengths={lens}', [{'kind': 'smart_rollup_add_messages', 'lens': lens}])
+    # symbolic entrypoint names: every name of the length of a reserved name (and two other lengths) over [A-Za-z0-9_]
+    for L in sorted({len(n) for n in ('default', 'root', 'do', 'set_delegate', 'remove_delegate', 'deposit', 'stake', 'unstake', 'finalize_unstake', 'set_delegate_parameters')} | {1, 9}):
+        add(f'transaction/entrypoint=symbolic/len={L}', [dict(tx, entrypoint=['sym', L], param='unit' if L % 2 else 'int', wide='none')])
     add('smart_rollup_execute_outbox_message', [{'kind': 'smart_rollup_execute_outbox_message', 'n': 2}])
     add('failing_noop', [{'kind': 'failing_noop', 'n': 3}])
     add('activate_account', [{'kind': 'activate_account'}])
